@@ -14,7 +14,8 @@ from checks import c11
 from vlib import float_to_pair as fp
 
 LEVEL = "exploration"
-KF = "64"
+KF = "8"
+KS = "4"
 
 
 def lin_case(xs, ys, cx=False, exact=None, mismatch=False):
@@ -130,7 +131,7 @@ def judge(ctx, groups):
         for r, c in zip(rows, cases):
             if c["variant"] == "linear":
                 r["xs"], r["ys"] = c["xs"], c["ys"]
-        viols = fncommon.validate(ctx, rows, "Val_C17", "fit%d" % gi, nshards=12, env={"VH_KF": KF}, timeout=1500)
+        viols = fncommon.validate(ctx, rows, "Val_C17", "fit%d" % gi, nshards=12, env={"VH_KF": KF, "VH_KS": KS}, timeout=1500)
         for c in cases:
             ctx.count_case(brief(c), c["variant"] == "linear" and len(c["xs"]) >= 3 or c.get("v", 0) >= 2)
         for c in cases[:: max(1, len(cases) // 2)][:2]:
@@ -156,9 +157,11 @@ def run(ctx):
                 "and arbitrary) + mismatched lengths; LM: polynomial / trigonometric bases (1-4 parameters, noise-free and noisy) and "
                 "exp / gaussian / logistic models with starts within 20% of the truth, tol 1e-12..1e-6, damping 0.1-5, multiplier 1.2-3, "
                 "both variants, invalid settings; non-trivial = >= 3 points (linear) / >= 2 parameters (LM)")
-    ctx.assumptions += ["LM accuracy bound %s*(1+|p|)*(sqrt(tol/lam)+1e-7), lam = min(1, proven lower bound of lambda_min(J^T J) at the target); "
-                        "judged only for designs with lam >= 1e-3 (the property's 'well-conditioned designs'): the stopping rule is on the "
-                        "change of the residual sum of squares" % KF,
+    ctx.assumptions += ["LM accuracy, in the quantity the stopping rule controls: S(result) - S(least-squares or generating parameters) <= %s*tol "
+                        "(+ rounding floor), any conditioning; worst ratio of the unchanged code over six seeds: 0.22" % KS,
+                        "LM parameter bound %s*(1+|p|)*(sqrt(tol/lam)+1e-7), lam = half the inverse-iteration estimate of lambda_min(J^T J) at the "
+                        "target (>= the proven AM-GM lower bound), judged only for designs with lam >= 1e-3 (the property's 'well-conditioned "
+                        "designs'); worst ratio of the unchanged code over six seeds: 0.15 of the unit, i.e. K has a 50-fold margin" % KF,
                         "a curve_fit failure is attributed to the known jac_finite_differences sign finding only when the same case passes "
                         "the whole contract through the twin (optimize/mod.rs of the tree under test with that one statement corrected, built by "
                         "harness/build.rs); otherwise it is reported as a fresh violation",
